@@ -10,6 +10,11 @@
 -/
 import Driver.Proto
 import Driver.FamCharSet
+import Driver.FamStore
+import Driver.FamRe
+import Driver.FamAutomaton
+import Driver.FamLoopRange
+import Driver.FamCharPartition
 
 open Driver
 
@@ -20,6 +25,7 @@ structure DState where
   specdiff : Nat := 0
   unknown : Nat := 0
   counts : List (String × Nat) := []
+  re : Driver.FamRe.ReSt := {}
 
 def bump (cs : List (String × Nat)) (k : String) : List (String × Nat) :=
   match cs with
@@ -29,6 +35,10 @@ def bump (cs : List (String × Nat)) (k : String) : List (String × Nat) :=
 def dispatch (fam op : String) (args : List String) : Option Reply :=
   match fam with
   | "cs" => FamCharSet.handle op args
+  | "store" => FamStore.handle op args
+  | "aut" => FamAutomaton.handle op args
+  | "lr" => FamLoopRange.handle op args
+  | "cp" => FamCharPartition.handle op args
   | _ => none
 
 def splitArrow (line : String) : Option (String × String) :=
@@ -44,13 +54,25 @@ def step (st : DState) (lineNo : Nat) (line : String) : DState × List String :=
     match lhs.splitOn " " with
     | fam :: op :: args =>
       let st := { st with counts := bump st.counts (fam ++ " " ++ op) }
-      match dispatch fam op args with
+      -- stateful family `re` (term table); all others are pure
+      let (st, reply) :=
+        if fam == "re" then
+          let (re', r) := Driver.FamRe.handle st.re op args
+          ({ st with re := re' }, r)
+        else (st, dispatch fam op args)
+      match reply with
       | none => ({ st with unknown := st.unknown + 1 }, [s!"UNKNOWN {lineNo} {line}"])
       | some r =>
         let out1 := if r.model == impl then [] else [s!"MISMATCH {lineNo} {lhs} model={r.model} impl={impl}"]
         let out2 := match r.spec with
           | some sp => if sp == impl then [] else [s!"SPECDIFF {lineNo} {lhs} spec={sp} impl={impl}"]
           | none => []
+        let out3 := match r.specCheck with
+          | some f => match f impl with
+            | some msg => [s!"SPECDIFF {lineNo} {lhs} spec={msg} impl={impl}"]
+            | none => []
+          | none => []
+        let out2 := out2 ++ out3
         let st := if r.model == impl then { st with okc := st.okc + 1 } else { st with mismatch := st.mismatch + 1 }
         let st := if out2.isEmpty then st else { st with specdiff := st.specdiff + 1 }
         (st, out1 ++ out2)
